@@ -357,6 +357,9 @@ pub fn run(ctx: &mut Ctx) {
     if mode == "kill" {
         return run_kill(ctx);
     }
+    if mode == "upgrade" {
+        return run_upgrade(ctx);
+    }
     let scratch = Scratch::new();
     for case in ctx.cases(150, 12_000) {
         let mut rng = ctx.rng(case);
@@ -576,5 +579,216 @@ fn run_kill(ctx: &mut Ctx) {
         }
         let _ = std::fs::remove_file(&db);
         let _ = std::fs::remove_file(&logp);
+    }
+}
+
+// ---- mode `upgrade`: the process dies while the first open converts a file of an earlier on-disk format
+
+/// Child process of the `upgrade` mode: open the store file (which converts it) and exit.
+pub fn upgrade_child_main(path: &str) {
+    match Store::persistent(path) {
+        Ok(s) => {
+            drop(s);
+            std::process::exit(0)
+        }
+        Err(_) => std::process::exit(3),
+    }
+}
+
+const UPGRADE_SYSCALLS: &str = "openat,rename,renameat,renameat2,link,linkat,unlink,unlinkat,write,pwrite64,pwritev,fsync,fdatasync,ftruncate,fallocate";
+
+fn strace_run(exe: &std::path::Path, db: &std::path::Path, log: &std::path::Path, kill_at: Option<(String, usize)>) -> Option<std::process::ExitStatus> {
+    let mut c = std::process::Command::new("strace");
+    c.args(["-f", "-qq", "-e", &format!("trace={UPGRADE_SYSCALLS}"), "-o"]).arg(log);
+    // strace counts invocations per system call, so a kill point is (call name, its n-th invocation)
+    if let Some((name, nth)) = kill_at {
+        c.args(["-e", &format!("inject={name}:signal=KILL:when={nth}")]);
+    }
+    c.arg(exe).args(["C06-upgrade-child", "--mode"]).arg(db);
+    c.stdout(std::process::Stdio::null()).stderr(std::process::Stdio::null());
+    c.status().ok()
+}
+
+/// The traced calls of a strace log in order: (call name, how many calls of that name up to and
+/// including this one, whether the line names `needle`).
+fn strace_calls(log: &std::path::Path, needle: &str) -> Vec<(String, usize, bool)> {
+    let text = std::fs::read_to_string(log).unwrap_or_default();
+    let mut per: BTreeMap<String, usize> = BTreeMap::new();
+    let mut out = vec![];
+    for l in text.lines() {
+        let body = l.split_once(' ').map(|x| x.1.trim_start()).unwrap_or(l);
+        if body.starts_with("+++") || body.starts_with("---") || body.starts_with("<...") {
+            continue;
+        }
+        let Some((name, _)) = body.split_once('(') else { continue };
+        let n = per.entry(name.to_string()).or_insert(0);
+        *n += 1;
+        out.push((name.to_string(), *n, body.contains(needle)));
+    }
+    out
+}
+
+/// A store is written by the real code, copied row by row into a file of the on-disk format of
+/// iroh-docs 0.94..=0.98, and opened by a child process under `strace`, which kills the child on
+/// entry to its k-th file-system call (open, rename, link, unlink, write, sync, truncate) — for every k
+/// the open makes (all of them when there are few, a seeded sample otherwise, the renames and links
+/// always). After every kill the file is opened again in this process: it must open and show exactly
+/// what the store held when it was closed — converting a file is not a write, so that is the only
+/// state the store ever passed through.
+fn run_upgrade(ctx: &mut Ctx) {
+    let scratch = Scratch::new();
+    let exe = std::env::current_exe().unwrap();
+    let probe = std::process::Command::new("strace").arg("-V").stdout(std::process::Stdio::null()).stderr(std::process::Stdio::null()).status();
+    if !probe.map(|s| s.success()).unwrap_or(false) {
+        ctx.harness_error("strace is not available: the upgrade mode cannot place its kills");
+        return;
+    }
+    for case in ctx.cases(14, 600) {
+        let mut rng = ctx.rng(case);
+        let n = rng.range(6, 25);
+        let ops = gen_history(&mut rng, n);
+        let base = crate::gen::t0();
+        let cur = scratch.path("upg-cur");
+        let reference = {
+            let mut store = Store::persistent(&cur).expect("create");
+            for (i, op) in ops.iter().enumerate() {
+                apply(&mut store, op, base + 10 * (i as u64 + 1));
+            }
+            store.flush().expect("flush");
+            observe(&mut store).expect("observe")
+        };
+        let shape = crate::oldfile::Shape { without_heads: rng.chance(1, 3), without_by_key: rng.chance(1, 3) };
+        let old = scratch.path("upg-old");
+        match crate::oldfile::write_old_format(&cur, &old, shape) {
+            Ok(c) => ctx.count("records_in_old_format_files", c.records as u64),
+            Err(e) => {
+                ctx.harness_error(format!("writing an old-format file failed: {e:?}"));
+                return;
+            }
+        }
+        let _ = std::fs::remove_file(&cur);
+        // the head keys of a rebuilt head table may name another entry with the same timestamp
+        let norm = |mut o: Obs| {
+            if shape.without_heads {
+                for h in o.heads.values_mut() {
+                    for v in h.values_mut() {
+                        v.1.clear();
+                    }
+                }
+            }
+            o
+        };
+        let reference = norm(reference);
+        let run_dir = |k: usize| scratch.dir.path().join(format!("upg-{case}-{k}"));
+        // dry run: the calls an uninterrupted conversion makes
+        let dir0 = run_dir(0);
+        std::fs::create_dir_all(&dir0).unwrap();
+        let db0 = dir0.join("docs.redb");
+        std::fs::copy(&old, &db0).unwrap();
+        let log0 = dir0.join("strace.log");
+        let st = strace_run(&exe, &db0, &log0, None);
+        if !st.map(|s| s.success()).unwrap_or(false) {
+            ctx.harness_error(format!("the uninterrupted conversion under strace did not exit cleanly: {st:?}"));
+            return;
+        }
+        let calls = strace_calls(&log0, "docs.redb");
+        let total = calls.len();
+        let first = calls.iter().position(|c| c.2).map(|i| i + 1).unwrap_or(0);
+        if total == 0 || first == 0 {
+            ctx.harness_error("strace recorded no file-system calls of the conversion");
+            return;
+        }
+        let special: Vec<usize> = calls
+            .iter()
+            .enumerate()
+            .filter(|(_, c)| c.0.starts_with("rename") || c.0.starts_with("link") || c.0.starts_with("unlink"))
+            .flat_map(|(i, _)| [i + 1, i + 2])
+            .collect();
+        if std::env::var("VCHECK_TRACE").is_ok() {
+            eprintln!("total {total} first {first} special {special:?}");
+            for l in std::fs::read_to_string(&log0).unwrap_or_default().lines().filter(|l| l.contains("rename") || l.contains("link") || l.contains("openat")) {
+                eprintln!("  {l}");
+            }
+        }
+        ctx.eval();
+        ctx.count("file_system_calls_of_uninterrupted_conversions", (total - first + 1) as u64);
+        let check = |ctx: &mut Ctx, db: &std::path::Path, k: usize| -> bool {
+            match Store::persistent(db) {
+                Err(e) => {
+                    ctx.violation(case, "reopen-failed-after-kill-during-format-conversion", json!({"killed_at_call": k, "of": total, "err": format!("{e:?}"), "shape": format!("{shape:?}")}));
+                    false
+                }
+                Ok(mut s) => match observe(&mut s) {
+                    Err(e) => {
+                        ctx.violation(case, "reopened-store-unreadable-after-kill-during-format-conversion", json!({"killed_at_call": k, "err": format!("{e:?}")}));
+                        false
+                    }
+                    Ok(o) => {
+                        let o = norm(o);
+                        if o != reference {
+                            let lost = reference.docs.values().map(|v| v.len()).sum::<usize>() as i64 - o.docs.values().map(|v| v.len()).sum::<usize>() as i64;
+                            let sig = if o.kinds.is_empty() && !reference.kinds.is_empty() { "store-empty-after-kill-during-format-conversion" } else { "store-differs-after-kill-during-format-conversion" };
+                            ctx.violation(case, sig, json!({"killed_at_call": k, "of": total, "entries_missing": lost, "shape": format!("{shape:?}"),
+                                "documents_before": reference.kinds.len(), "documents_after": o.kinds.len(), "peers_before": reference.peers.values().map(|v| v.len()).sum::<usize>(), "peers_after": o.peers.values().map(|v| v.len()).sum::<usize>()}));
+                            false
+                        } else {
+                            coherent(&mut s, &o).map_err(|e| ctx.violation(case, "incoherent-after-kill-during-format-conversion", json!({"killed_at_call": k, "why": e}))).is_ok()
+                        }
+                    }
+                },
+            }
+        };
+        // the uninterrupted conversion itself
+        if !check(ctx, &db0, 0) {
+            return;
+        }
+        if std::env::var("VCHECK_KEEP").is_err() {
+            let _ = std::fs::remove_dir_all(&dir0);
+        }
+        let mut points: BTreeSet<usize> = special.into_iter().filter(|k| *k >= first && *k <= total).collect();
+        let budget = if ctx.is_quick() { 32 } else { 400 };
+        if total - first + 1 <= budget {
+            points.extend(first..=total);
+        } else {
+            while points.len() < budget {
+                points.insert(first + rng.below(total - first + 1));
+            }
+        }
+        for k in points {
+            if ctx.out_of_time() {
+                break;
+            }
+            let dir = run_dir(k);
+            std::fs::create_dir_all(&dir).unwrap();
+            let db = dir.join("docs.redb");
+            std::fs::copy(&old, &db).unwrap();
+            let (name, nth, _) = calls[k - 1].clone();
+            let st = strace_run(&exe, &db, &dir.join("strace.log"), Some((name.clone(), nth)));
+            ctx.distinct("calls_killed_at", h64(name.as_bytes()));
+            use std::os::unix::process::ExitStatusExt;
+            match st {
+                Some(s) if s.signal() == Some(libc::SIGKILL) || s.code() == Some(137) => {
+                    ctx.count("children_killed_during_the_conversion", 1);
+                }
+                Some(s) if s.success() => {
+                    ctx.count("kill_point_not_reached", 1);
+                }
+                other => {
+                    ctx.harness_error(format!("strace run with a kill at call {k} ended unexpectedly: {other:?}"));
+                    return;
+                }
+            }
+            ctx.distinct("kill_points", (k - first) as u64);
+            ctx.nontrivial(h64(format!("{case}:{k}:{}", ctx.seed).as_bytes()));
+            let ok = check(ctx, &db, k);
+            let _ = std::fs::remove_dir_all(&dir);
+            if !ok {
+                return;
+            }
+        }
+        if ctx.want_sample() {
+            ctx.sample(json!({"case": case, "mode": "upgrade", "history_ops": ops.len(), "old_file_shape": format!("{shape:?}"), "file_system_calls": total - first + 1}));
+        }
+        let _ = std::fs::remove_file(&old);
     }
 }
